@@ -20,12 +20,13 @@ import shutil
 import time
 
 from .. import core, build, hrun, sandbox, smtpdrive
+from .. import shim as _shim
 from ..refmodel import smtpdata
 from .c06 import SMTPD_OBJS
 
 PROP = "C05"
 TERM = b"\r\n.\r\n"
-QQREC = os.path.join(core.VERIF, "bin", "qq-rec")
+QQREC = _shim.tool("qq-rec")
 PATIENCE = 10.0      # seconds without any output before lock-step feeding gives up waiting
 
 # trailing commands: (wire verb, expected reply).  Reply codes per RFC 5321 4.2.3 / 4.3.2;
